@@ -28,6 +28,24 @@ theorem toW3 {fl : Bool} {tmpl : Term} {max : Nat} {prog : List Term} {lv : Lv} 
     {ans0 : List Term} {r : SLD.Res} {A B : Prop} (h : PSpec fl mo tmpl max prog lv d p m ans0 r ∧ A ∧ B) :
     PSpecW fl mo tmpl max prog lv d p m ans0 r ∧ A ∧ B := ⟨h.1.toW, h.2⟩
 
+/-- the compiled clauses and their clause terms as the alternatives of a call -/
+theorem items_of {R : Clause → Term → Prop} {f : Term → Option SLD.Alt} {cls : List Clause} {rs : List Term}
+    (h : Forall2 R cls rs) :
+    ∃ its : List Item, its.map (·.1) = cls ∧ its.filterMap (·.2.2) = rs.filterMap f ∧
+      ∀ it ∈ its, R it.1 it.2.1 ∧ it.2.2 = f it.2.1 ∧ it.2.1 ∈ rs := by
+  induction h with
+  | nil => exact ⟨[], rfl, rfl, fun _ h => by simp at h⟩
+  | @cons cl r cls' rs' hd _ ih =>
+    obtain ⟨its, h1, h2, h3⟩ := ih
+    refine ⟨(cl, r, f r) :: its, by simp [h1], ?_, ?_⟩
+    · simp only [List.filterMap_cons]
+      cases f r <;> simp [h2]
+    · intro it hit
+      rcases List.mem_cons.1 hit with rfl | hit
+      · exact ⟨hd, rfl, by simp⟩
+      · obtain ⟨a, b, c⟩ := h3 it hit
+        exact ⟨a, b, by simp [c]⟩
+
 /-- a call of a user predicate (`arrive` past the builtin dispatch) -/
 theorem call_user {fl : Bool} {tmpl : Term} {max : Nat} {prog : List Term} (hprog : ∀ c ∈ prog, clauseS fl c = true)
     {N : Nat} {env1 : Env} {σ1 : Subst} {π : Nat → Nat} {D : Nat → Prop} {nv : Nat}
@@ -58,7 +76,7 @@ theorem call_user {fl : Bool} {tmpl : Term} {max : Nat} {prog : List Term} (hpro
   | none =>
     have harr := harr2 hl
     rw [hnone.1 hl] at hs
-    simp only [List.map_nil, SLD.raise, Option.some.injEq] at hs
+    simp only [List.flatMap_nil, List.map_nil, SLD.raise, Option.some.injEq] at hs
     subst hs
     obtain ⟨c1, N', hN', hmk⟩ := mkErr_closed _ (closed_existence (functorName g) (argList g).length) env1 m
     rw [hmk] at harr
@@ -69,38 +87,66 @@ theorem call_user {fl : Bool} {tmpl : Term} {max : Nat} {prog : List Term} (hpro
   | some pr =>
     have harr := harr1 pr hl
     have hcl := hsome pr hl
-    let its : List Item :=
-      (prog.filter (fun c => decide (headKey c = (functorName g, (argList g).length)))).map
-        (fun c => (clauseOf c, c, some (SLD.Alt.clause (img σ1 π g) (ruleOf c))))
+    generalize hcs0 : prog.filter (fun c => decide (headKey c = (functorName g, (argList g).length))) = cs0 at hs hcl hnone
+    have hcs0m : ∀ c ∈ cs0, c ∈ prog ∧ headKey c = (functorName g, (argList g).length) := by
+      intro c hc
+      rw [← hcs0, List.mem_filter] at hc
+      exact ⟨hc.1, by simpa using hc.2⟩
+    have hF : Forall2 (fun cl r => CRel fl cl (SLD.headBody r).1 (SLD.headBody r).2) (cs0.flatMap compiled)
+        (cs0.flatMap SLD.splitClause) :=
+      Forall2.flatMap cs0 (fun c hc => (compile_split c (hprog c (hcs0m c hc).1)).2)
+    obtain ⟨its, h1, h2, h3⟩ := items_of (f := fun r => some (SLD.Alt.clause (img σ1 π g) (ruleOf r))) hF
     have hp : p = ({ id := m.user.nextId, delayed := its.map (fun it => Thunk.clause it.1 (argList g) K' env1 m.user.nextId) } : Pr) := by
       have : p = (clausesCall pr.clauses (argList g) K' env1 m).1 := by rw [harr]
-      rw [this]
-      simp [its, clausesCall, freshId, hcl, List.map_map, Function.comp_def]
+      rw [this, hcl, ← h1]
+      simp [clausesCall, freshId, List.map_map, Function.comp_def]
     have hm1 : m1 = { m with user := { m.user with nextId := m.user.nextId + 1 } } := by
       have : m1 = (clausesCall pr.clauses (argList g) K' env1 m).2 := by rw [harr]
       rw [this]; rfl
-    have hne : prog.filter (fun c => decide (headKey c = (functorName g, (argList g).length))) ≠ [] := by
+    have hne : cs0 ≠ [] := by
       intro he
       rw [hnone.2 he] at hl
       cases hl
+    have hrs : ∀ r ∈ cs0.flatMap SLD.splitClause, ∃ c ∈ cs0, r ∈ SLD.splitClause c := by
+      intro r hr
+      rw [List.mem_flatMap] at hr
+      exact hr
     have hs' : SLD.solveAlts false (prog.flatMap SLD.splitClause ++ SLD.library) n' d nv
         (its.filterMap (·.2.2)) R' q (max - m.user.answers.length) = some r := by
-      have hfm : its.filterMap (·.2.2) = (prog.filter (fun c => decide (headKey c = (functorName g, (argList g).length)))).map
-          (fun c => SLD.Alt.clause (img σ1 π g) (ruleOf c)) := by
-        simp [its, List.filterMap_map, Function.comp_def]
+      rw [h2]
+      have hfm : (cs0.flatMap SLD.splitClause).filterMap (fun r => some (SLD.Alt.clause (img σ1 π g) (ruleOf r))) =
+          (cs0.flatMap SLD.splitClause).map (SLD.Alt.clause (img σ1 π g)) := by
+        rw [List.filterMap_eq_map']
+        apply List.map_congr_left
+        intro r hr
+        obtain ⟨c, _, hrc⟩ := hrs r hr
+        rw [ruleOf_split hrc]
       rw [hfm]
-      cases hcs : prog.filter (fun c => decide (headKey c = (functorName g, (argList g).length))) with
-      | nil => exact absurd hcs hne
-      | cons c0 cs0 =>
-        rw [hcs] at hs
-        simpa [List.map_map, Function.comp_def] using hs
+      cases hrs0 : cs0.flatMap SLD.splitClause with
+      | nil =>
+        exfalso
+        cases cs0 with
+        | nil => exact hne rfl
+        | cons c0 cs1 =>
+          rw [List.flatMap_cons] at hrs0
+          have := List.append_eq_nil_iff.1 hrs0
+          simp only [SLD.splitClause, List.map_eq_nil_iff] at this
+          exact disjuncts_ne_nil _ this.1
+      | cons r0 rs0 =>
+        rw [hrs0] at hs
+        exact hs
     rw [hp, hm1]
     refine toW3 ⟨.alts rfl (Nat.pos_iff_ne_zero.1 hst.2.1) hshape ?_ hs', hst.nextId, Nat.le_refl _⟩
     refine ⟨N, σ1, π, D, G', hN, hW1, hcg', hgr', hco', hq, hgD, altsRel_of_forall ?_⟩
     intro it hit
-    simp only [its, List.mem_map, List.mem_filter, decide_eq_true_eq] at hit
-    obtain ⟨c, ⟨hc1, hc2⟩, rfl⟩ := hit
-    exact .prog (clauseOf_spec c (clauseC_of_S (hprog c hc1))).2 hc2
+    obtain ⟨hR, halt, hmem⟩ := h3 it hit
+    obtain ⟨c, hc, hrc⟩ := hrs _ hmem
+    rw [halt]
+    refine .prog hR ?_
+    show headKey it.2.1 = goalKey g
+    have : headKey it.2.1 = headKey c := by simp only [headKey, split_head hrc]
+    rw [this]
+    exact (hcs0m c hc).2
 
 /-- a call of a control construct that bootstrap.pl defines by clauses -/
 theorem call_boot {fl : Bool} {tmpl : Term} {max : Nat} {prog : List Term} (hprog : ∀ c ∈ prog, clauseS fl c = true)
